@@ -663,6 +663,75 @@ def chunks(seq, n):
     return [seq[i:i + n] for i in range(0, len(seq), n)]
 
 
+# =============================================================================================
+# sequences on ONE encoder / decoder instance: the layer keeps a single WriteEncoder and ReadDecoder for the life of
+# the connection, so what an earlier string (or an earlier stanza) leaves behind in them is part of the input
+# =============================================================================================
+PAIR_STRINGS = [
+    "1400000002", "1-2.3", "491234567890-1400000000", "7", "ABCDEF01", "A1B", "0F",
+    "hello", "", "receipt", "4915112345678@s.whatsapp.net",
+    "12ab-7", "Bob.example", "99999999999999999999x", "ABCDEFG", "1.2.3x", "-", ".", "12345678901234567890123456789012345678901234567890"
+    "1234567890123456789012345678901234567890123456789012345678901234567890123456789012345",
+]
+
+
+def check_string_pairs(item):
+    """(a, b): value b written after value a - in the same stanza, and in the next stanza of the same encoder - must
+    encode exactly as it does on a fresh encoder, and decode back, on the same decoder, to itself."""
+    ia, mode = item
+    a = PAIR_STRINGS[ia]
+    vs = []
+    evals = 0
+    for b in PAIR_STRINGS:
+        case = {"string_pair": [a, b], "mode": mode}
+        enc, dec = WriteEncoder(TokenDictionary()), ReadDecoder(TokenDictionary())
+        if mode == "same-stanza":
+            trees = [("iq", (("x", a), ("y", b)), None, ())]
+        elif mode == "next-stanza":
+            trees = [("iq", (("x", a),), None, ()), ("iq", (("y", b),), None, ())]
+        else:   # the first stanza cannot be encoded at all (an int attribute after the string): the next one is unaffected
+            trees = [None, ("iq", (("y", b),), None, ())]
+        for t in trees:
+            evals += 1
+            if t is None:
+                try:
+                    enc.protocolTreeNodeToBytes(ProtocolTreeNode("iq", {"x": a, "z": 5}))
+                except Exception:
+                    pass
+                continue
+            if not well_formed(t):
+                continue
+            try:
+                wire = bytes(enc.protocolTreeNodeToBytes(to_node(t)))
+            except Exception as e:
+                vs.append(("C01:pair:encode-raises", "%s after %r: %s" % (mode, a, exc_name(e)), case, str(e)[:200]))
+                break
+            try:
+                fresh = bytes(WriteEncoder(TokenDictionary()).protocolTreeNodeToBytes(to_node(t)))
+            except Exception as e:
+                break        # not encodable even on a fresh encoder: the single-tree part reports that
+            if wire != fresh and mode != "same-stanza":
+                vs.append(("C01:pair:encoder-state", "a stanza encodes differently after an earlier one on the same encoder (%s: %r then %r)" % (mode, a, b),
+                           case, {"wire": wire[:40], "fresh": fresh[:40]}))
+                break
+            try:
+                got = dec.getProtocolTreeNode(bytearray(wire))
+            except Exception as e:
+                vs.append(("C01:pair:decode-raises", "%s: %r then %r: %s" % (mode, a, b, exc_name(e)), case, str(e)[:200]))
+                break
+            d = strict_diff(got, t)
+            if d:
+                vs.append(("C01:pair:mismatch", "value written after another value comes back changed (%s: %r then %r): %s" % (mode, a, b, d), case, d))
+                break
+        if vs:
+            break
+    return vs, evals
+
+
+def pair_items():
+    return [(i, m) for i in range(len(PAIR_STRINGS)) for m in ("same-stanza", "next-stanza", "after-failed-stanza")]
+
+
 def run(ctx):
     cases = gen_cases(ctx.quick)
     big = [c for c in cases if c["big"]]
@@ -693,6 +762,11 @@ def run(ctx):
         outcomes.update(tuple(o) for o in oc)
 
     ctx.add_violations(late)
+    pair_evals = 0
+    for vs, e in ctx.pimap(check_string_pairs, pair_items(), 4):
+        pair_evals += e
+        ctx.add_violations(vs)
+    evals += pair_evals
 
     ctx.coverage.update({
         "evaluations": evals,
@@ -723,5 +797,7 @@ def run(ctx):
 
 
 def replay(ctx, case):
+    if "string_pair" in case:
+        return check_string_pairs((PAIR_STRINGS.index(case["string_pair"][0]), case["mode"]))[0]
     vs, evals, forms, outcome = check_case({"cls": case["cls"], "tree": case["tree"]})
     return vs
